@@ -85,6 +85,15 @@ func altTxs(c *Ctx, hr *HistRun, i int) map[int64][][]byte {
 	return out
 }
 
+func indexOfTx(l []*TxInfo, t *TxInfo) int {
+	for i, x := range l {
+		if x == t {
+			return i
+		}
+	}
+	return -1
+}
+
 // directedConflicts builds transactions that are valid against state pre but are only ever checked,
 // never delivered: validators with delegators withdrawing their own stake, every voter voting,
 // everybody withdrawing all rewards.
@@ -166,17 +175,51 @@ func (c *Ctx) c06Deterministic(i int, hr *HistRun, o *HistOpts, alts map[int64][
 		c.Err(i, "open", err)
 		return
 	}
-	defer r.Close()
+	defer func() { r.Close() }()
 	nb := len(hr.Results)
 	var appHash []byte
 	var trace []string
+	delivered := 0 // transactions of the current block delivered so far
+	// successor: what the sender of an already delivered transaction of this block would submit next (its nonce is
+	// right for the state under execution, one too high for the committed state the mempool view starts from)
+	successor := func(h int64, bi int) []byte {
+		if delivered == 0 || bi >= len(hr.Txs) {
+			return nil
+		}
+		for try := 0; try < 6; try++ {
+			ti := hr.Txs[bi][rng.Intn(delivered)]
+			if ti == nil || ti.Tx == nil || bi >= len(hr.Results) {
+				continue
+			}
+			k := hr.G.Keys[hx(ti.Tx.From)]
+			if k == nil {
+				continue
+			}
+			P := hr.M.Hist[h-1].Params
+			nonce := ti.Tx.Nonce
+			if idx := indexOfTx(hr.Txs[bi], ti); idx >= 0 && idx < len(hr.Results[bi].Txs) && hr.Results[bi].Txs[idx].Code == 0 {
+				nonce++
+			}
+			tx := mkTx(rctypes.TRX_TRANSFER, k.Addr, hr.G.pick(hr.G.All).Addr, nonce, P.MinTrxGas+3, u256big(bigDec(P.GasPrice)), uint256.NewInt(uint64(1+rng.Intn(900))), nil, h*1_000_000+700_000+int64(rng.Intn(1000)))
+			return signTx(tx, k, hr.G.G.ChainID)
+		}
+		return nil
+	}
 	noise := func(gap string, h int64, bi int, txi int) error {
 		k := rng.Intn(4)
 		for n := 0; n < k; n++ {
 			if rng.Intn(2) == 0 {
 				var tx []byte
 				kind := ""
-				switch rng.Intn(8) {
+				sel := rng.Intn(8)
+				if delivered > 0 && rng.Intn(4) == 0 {
+					sel = 100
+				}
+				switch sel {
+				case 100:
+					if tx = successor(h, bi); tx != nil {
+						kind = "successor-of-delivered"
+					}
 				case 0: // a transaction of this block (before or after its delivery)
 					if len(hr.Blocks[bi].Txs) > 0 {
 						tx, kind = hr.Blocks[bi].Txs[rng.Intn(len(hr.Blocks[bi].Txs))], "own"
@@ -246,6 +289,7 @@ func (c *Ctx) c06Deterministic(i int, hr *HistRun, o *HistOpts, alts map[int64][
 		if !step("after-begin") {
 			return
 		}
+		delivered = 0
 		for _, tx := range b.Txs {
 			dr, err := r.DeliverTx(tx)
 			if err != nil {
@@ -253,6 +297,7 @@ func (c *Ctx) c06Deterministic(i int, hr *HistRun, o *HistOpts, alts map[int64][
 				return
 			}
 			res.Txs = append(res.Txs, dr)
+			delivered++
 			if !step("between-deliver") {
 				return
 			}
@@ -264,6 +309,7 @@ func (c *Ctx) c06Deterministic(i int, hr *HistRun, o *HistOpts, alts map[int64][
 		if !step("after-end") {
 			return
 		}
+		delivered = 0
 		if res.Commit, err = r.Commit(); err != nil {
 			c.Err(i, "commit", err)
 			return
@@ -273,6 +319,20 @@ func (c *Ctx) c06Deterministic(i int, hr *HistRun, o *HistOpts, alts map[int64][
 			return
 		}
 		c.Eval(1)
+		if bi+1 < nb && rng.Intn(6) == 0 {
+			// the noisy node is restarted: its caches are cold while it keeps serving the same traffic
+			if err := r.Stop(); err != nil {
+				c.Err(i, "stop", err)
+				return
+			}
+			if r, _, err = openReplica(c, dir, hr.G.G, SpawnOpt{}, false); err != nil {
+				c.Err(i, "reopen", err)
+				return
+			}
+			_ = r.SetTimes(hr.Times)
+			trace = append(trace, fmt.Sprintf("h%d restart", h))
+			c.Count("noisy-replica-restarts", 1)
+		}
 		if a, bb := hr.Results[bi].consensusView(), res.consensusView(); a != bb {
 			t := trace
 			if len(t) > 25 {
